@@ -160,10 +160,11 @@ pub fn block_case(rec: &mut Rec, rng: &mut Rng, lines: &[Vec<u8>], descr: &str) 
             if l.is_empty() {
                 stopped = true;
             } else {
-                match fold_h.parse_header_line(l) {
-                    Ok(()) => {}
-                    Err(e) if is_unsupported_value(&e) => {}
-                    Err(e) => folded = Err(show_req_err(&e)),
+                match catch_unwind(AssertUnwindSafe(|| fold_h.parse_header_line(l))) {
+                    Ok(Ok(())) => {}
+                    Ok(Err(e)) if is_unsupported_value(&e) => {}
+                    Ok(Err(e)) => folded = Err(show_req_err(&e)),
+                    Err(_) => folded = Err("PANIC".to_string()),
                 }
             }
         }
